@@ -44,6 +44,7 @@ type c03H2Scenario struct {
 	trailers bool   // END_STREAM is carried by a trailers HEADERS frame instead of the last DATA frame
 	afterES  int    // DATA bytes sent after END_STREAM (not part of the response)
 	headES   bool   // END_STREAM on the HEADERS frame although a length > 0 is declared
+	closeAt  int    // >= 0: the (streaming) caller reads this many bytes, then closes the body; the peer leaves the stream open
 }
 
 // c03H2Fr is one step of the peer's script for a stream. The SAME plan drives the peer (what is
@@ -297,7 +298,7 @@ func TestVerif_C03_h2cut(t *testing.T) {
 	peer := newC03H2Peer(t)
 	defer func() { peer.ln.Close(); peer.reset(nil) }()
 	url := "http://" + peer.ln.Addr().String() + "/x"
-	n := verifh.N(330, 3300)
+	n := verifh.N(350, 3500)
 	reached := map[string]int{}
 	failures := 0
 	tmpDir := t.TempDir()
@@ -305,19 +306,22 @@ func TestVerif_C03_h2cut(t *testing.T) {
 	perName := map[string]int{}
 	for i := 0; i < n && failures < 12; i++ {
 		body := verifh.RandBytes(r, 1+r.Intn(300), "abcdefghijklmnopqrstuvwxyz")
-		sc := c03H2Scenario{body: body, declared: len(body), send: len(body), frames: 1 + r.Intn(4), ending: "end-stream", complete: true}
+		sc := c03H2Scenario{body: body, declared: len(body), send: len(body), frames: 1 + r.Intn(4), ending: "end-stream", complete: true, closeAt: -1}
 		if r.Intn(3) == 0 {
 			sc.declared = -1
 		}
 		// where the fault hits: right after HEADERS (no DATA yet) or after a strict prefix of the body
 		cutAt := func() int {
-			if r.Intn(3) == 0 {
-				return 0
+			switch r.Intn(4) {
+			case 0:
+				return 0 // right after HEADERS
+			case 1:
+				return len(body) - 1 // exactly one byte short of the whole body
 			}
 			return r.Intn(len(body))
 		}
 		allCodes := []uint32{0, 1, 2, 3, 4, 5, 6, 7, 8, 9, 10, 11, 12, 13}
-		switch r.Intn(19) {
+		switch r.Intn(20) {
 		case 0, 1: // control
 			sc.name = "complete"
 			// controls without a body although a length is declared: HEAD, 204, 304
@@ -350,9 +354,9 @@ func TestVerif_C03_h2cut(t *testing.T) {
 				sc.send = len(body)
 			}
 		case 9: // END_STREAM before the declared length
-			sc.name, sc.declared, sc.send, sc.complete = "short-end-stream", len(body), r.Intn(len(body)), false
+			sc.name, sc.declared, sc.send, sc.complete = "short-end-stream", len(body), cutAt(), false
 		case 10: // more DATA than declared
-			sc.name, sc.declared, sc.extra, sc.complete = "overlong", len(body), 1+r.Intn(20), false
+			sc.name, sc.declared, sc.extra, sc.complete = "overlong", len(body), verifh.Pick(r, []int{1, 1, 1 + r.Intn(20), 2 + r.Intn(19)}), false
 			switch overSeq % 4 {
 			case 1: // the surplus arrives in a later DATA frame, after the declared bytes were consumed
 				sc.name, sc.late = "overlong-late-frame", true
@@ -391,6 +395,9 @@ func TestVerif_C03_h2cut(t *testing.T) {
 			sc.name, sc.afterES = "data-after-end-stream", 1+r.Intn(20)
 		case 18: // END_STREAM on HEADERS although a length > 0 is declared
 			sc.name, sc.declared, sc.send, sc.headES, sc.complete = "headers-end-stream-with-length", len(body), 0, true, false
+		case 19: // the caller gives up: it reads part of what arrived and closes the body while the peer keeps the stream open
+			sc.name, sc.ending, sc.send = "caller-closes-early", "open", 1+r.Intn(len(body))
+			sc.closeAt = r.Intn(sc.send + 1)
 		}
 		perName[sc.name]++
 		if perName[sc.name]%4 == 1 && !sc.noHead && sc.ending != "close-before-headers" {
@@ -399,7 +406,7 @@ func TestVerif_C03_h2cut(t *testing.T) {
 		}
 		peer.reset([]c03H2Scenario{sc})
 		c := C().EnableForceHTTP2().EnableH2C().SetTimeout(10 * time.Second)
-		stream := r.Intn(4) == 0
+		stream := r.Intn(4) == 0 || sc.closeAt >= 0
 		cc := &c03Caller{mode: c03PickMode(r, "", "", 0), dir: tmpDir}
 		if stream {
 			c.DisableAutoReadResponse().DisableAutoDecode()
@@ -414,11 +421,39 @@ func TestVerif_C03_h2cut(t *testing.T) {
 		if sc.head || sc.status == 304 {
 			want = ""
 		}
-		fx := c03DoFirstX(c, method, url, stream, cc)
+		var fx c03First
+		closedThen := ""
+		if sc.closeAt >= 0 {
+			// read exactly closeAt bytes, close, and read once more
+			resp, err := c.R().Get(url)
+			if err != nil || resp == nil || resp.Response == nil {
+				fx.callFailed = true
+				if err != nil {
+					fx.err = err.Error()
+				}
+			} else {
+				fx.status = resp.StatusCode
+				buf := make([]byte, sc.closeAt)
+				n, _ := io.ReadFull(resp.Body, buf)
+				fx.body = buf[:n]
+				resp.Body.Close()
+				if _, rerr := resp.Body.Read(make([]byte, 1)); rerr != nil && rerr != io.EOF {
+					closedThen = "closed"
+				} else {
+					closedThen = "not-closed"
+				}
+				fx.ok = true
+			}
+		} else {
+			fx = c03DoFirstX(c, method, url, stream, cc)
+		}
 		first, ferr := fx.render()
 		callerName := cc.name()
 		if stream {
 			callerName = "stream"
+		}
+		if sc.closeAt >= 0 {
+			callerName = "stream-close"
 		}
 		s.Count("caller:" + callerName)
 		second, err2 := c.R().Get(url)
@@ -438,6 +473,12 @@ func TestVerif_C03_h2cut(t *testing.T) {
 		mode := map[bool]string{true: "s", false: "a"}[stream]
 		impl := "fail"
 		switch {
+		case sc.closeAt >= 0 && fx.ok:
+			mode = "c" + strconv.Itoa(sc.closeAt)
+			impl = "closed delivered=" + verifh.Hex(string(fx.body)) + " then=" + closedThen
+		case sc.closeAt >= 0:
+			mode = "c" + strconv.Itoa(sc.closeAt)
+			impl = "fail-call"
 		case fx.ok && string(fx.body) == c03Second:
 			impl = "retry" // what came back is the peer's NEXT response: the request was replayed
 			s.Count("replayed")
@@ -452,7 +493,13 @@ func TestVerif_C03_h2cut(t *testing.T) {
 		line := "c03h2 " + map[bool]string{true: "1", false: "0"}[sc.head] + " 1 " + c03H2Events(c03H2Plan(sc), 1) + " " + mode
 		// second opinion: the Go-side property oracle
 		ok, why := true, ""
-		if strings.HasPrefix(first, "ok") {
+		if sc.closeAt >= 0 {
+			// the caller gave up on purpose: nothing to judge but the bytes it was handed and the next request
+			if !fx.ok || string(fx.body) != body[:sc.closeAt] {
+				ok, why = false, "the bytes read before Close are not the first bytes of the body"
+			}
+			reached["ok"]++
+		} else if strings.HasPrefix(first, "ok") {
 			if sc.retryOK && first == "ok body="+c03Second {
 				// the unprocessed request was replayed on a new connection: a complete response
 				s.Count("replayed-unprocessed")
@@ -493,7 +540,7 @@ func TestVerif_C03_h2cut(t *testing.T) {
 		return
 	}
 	for _, need := range []string{"ok", "fail", "complete", "complete-head-with-length", "rst-code-0", "rst-code-8", "goaway-code-0-last-at", "goaway-code-0-last-below", "goaway-graceful-complete", "rst-noerror-after-end-stream", "tcp-close", "midframe", "short-end-stream", "overlong", "overlong-late-frame", "overlong-at-read-buffer", "overlong-zero-length", "close-before-headers",
-		"rst-before-headers-code-7", "rst-before-headers-code-1", "rst-before-headers-code-0", "goaway-before-headers-code-0-last-below", "goaway-before-headers-code-2-last-below", "complete-with-trailers", "short-with-trailers", "data-after-end-stream", "headers-end-stream-with-length"} {
+		"rst-before-headers-code-7", "rst-before-headers-code-1", "rst-before-headers-code-0", "goaway-before-headers-code-0-last-below", "goaway-before-headers-code-2-last-below", "complete-with-trailers", "short-with-trailers", "data-after-end-stream", "headers-end-stream-with-length", "caller-closes-early"} {
 		if reached[need] == 0 {
 			t.Errorf("C03/h2cut never reached %q", need)
 		}
